@@ -38,11 +38,14 @@ def run(ctx):
     names = [mm.name for mm in p.macro_defs_python] + ['\\newcommand', '\\def', '\\item', '\\begin', '\\end', '\\verb', "\\'"]
     tails = ['', '{', '}', '[', ']', '{a', '[a', '{a}', '[a]{', '*', '*{', '{a}{', '{a}[', '{a}{b}{', '{\\a}[2][d]{#1#2', '{}', '[]',
              '{#1}', '{#3}', '\n\n', ' $', '$x', '{$x}', '\\par', '{\\begin{equation}}', '%', '{%\n', '{\\verb|', '{\\item}',
-             '{\\footnote{a}}', '{\\\\}', '{\\LTinput{f1.tex}}']
+             '{\\footnote{a}}', '{\\\\}', '{\\LTinput{f1.tex}}',
+             # lengths and numbers in odd shapes
+             '{.em}', '{,}', '{.}', '{1.}', '{-1em}', '{ .5em}', '{0,5\\textwidth}', '{1e3pt}', '{٣em}', '[.]{a}', '{a}[٣]']
+    NUMTAILS = {'{.em}', '{,}', '{.}', '{1.}', '{-1em}', '{ .5em}', '[.]{a}'}
     rng = ctx.rng
     for nm in names:
         for t in tails:
-            if rng.random() < ctx.scale(0.25, 1.0):
+            if t in NUMTAILS or rng.random() < ctx.scale(0.25, 1.0):
                 cases.append({'src': rng.choice(['', 'A ', '\\begin{itemize}']) + nm + t, 'opts': {'pack': '*', 'lang': rng.choice(['', 'de', 'ru'])},
                               'multi': rng.random() < 0.2, 'kind': 'trunc', 'words': None, 'files': {'f1.tex': '\\footnote{x}\\newcommand{\\q}{Q}'}})
     # every prefix of a small displayed equation, for every equation environment (a text that ends right behind & or \\\\)
